@@ -1852,3 +1852,160 @@ Proof.
   rewrite i_size0. clear. induction (cq _ ++ wq _) as [|x l IH]; simpl; [reflexivity|].
   now rewrite IH.
 Qed.
+
+(* ------------------------------------------------------------------ *)
+(* Part D.  Buffers: every alloc_cb result is handed back exactly once. *)
+
+Definition bquiet (e : event) : bool :=
+  match e with EAlloc _ _ | ERecv _ _ _ _ _ | ERecvStop _ => false | _ => true end.
+Definition bsoft (e : event) : bool :=
+  match e with EAlloc _ _ | ERecv _ _ _ _ _ => false | _ => true end.
+
+Lemma bquiet_soft ev : forallb bquiet ev = true -> forallb bsoft ev = true.
+Proof.
+  induction ev as [|e ev IH]; simpl; auto. intros H. apply andb_prop in H. destruct H as (H1 & H2).
+  rewrite (IH H2). destruct e; simpl in *; auto; discriminate.
+Qed.
+
+Lemma sys_bquiet ev : forallb is_sys ev = true -> forallb bquiet ev = true.
+Proof.
+  induction ev as [|e ev IH]; simpl; auto. intros H. apply andb_prop in H. destruct H as (H1 & H2).
+  rewrite (IH H2). destruct e; simpl in *; auto; discriminate.
+Qed.
+
+Lemma bmon_quiet : forall ev m, forallb bquiet ev = true -> bmon_run m ev = Some m.
+Proof.
+  induction ev as [|e ev IH]; intros m H; simpl in *; auto.
+  apply andb_prop in H. destruct H as (H1 & H2).
+  assert (bmon_step m e = Some m) as St by (destruct m as [cur nb]; destruct e; simpl in *; auto; discriminate).
+  rewrite St. now apply IH.
+Qed.
+
+Lemma bmon_soft_none : forall ev nb,
+  forallb bsoft ev = true -> bmon_run (None, nb) ev = Some (None, nb).
+Proof.
+  induction ev as [|e ev IH]; intros nb H; simpl in *; auto.
+  apply andb_prop in H. destruct H as (H1 & H2).
+  assert (bmon_step (None, nb) e = Some (None, nb)) as St by (destruct e; simpl in *; auto; discriminate).
+  rewrite St. now apply IH.
+Qed.
+
+Lemma bmon_run_app : forall a b m,
+  bmon_run m (a ++ b) = match bmon_run m a with Some m' => bmon_run m' b | None => None end.
+Proof.
+  induction a as [|e a IH]; intros b m; simpl; [reflexivity|].
+  destruct (bmon_step m e); [apply IH|reflexivity].
+Qed.
+
+(* send-side code: quiet events, receive callback and buffer counter untouched *)
+Definition keeps (s : st) (r : st * list event) : Prop :=
+  forallb bquiet (snd r) = true /\ recving (fst r) = recving s /\ next_buf (fst r) = next_buf s.
+
+Lemma keeps_bind s s1 e1 s2 e2 :
+  keeps s (s1, e1) -> keeps s1 (s2, e2) -> keeps s (s2, e1 ++ e2).
+Proof.
+  intros (A1 & A2 & A3) (B1 & B2 & B3). simpl in *. repeat split; simpl; try congruence.
+  now rewrite forallb_app, A1, B1.
+Qed.
+
+Lemma sendmsg_loop_keeps fx : forall fuel s, keeps s (sendmsg_loop fx fuel s).
+Proof.
+  induction fuel as [|f IH]; intros s; simpl; [repeat split|].
+  destruct (sendmsgv fx (map q_d (firstn BATCH (wq s))) (os s)) as [[n ev] o'] eqn:E.
+  destruct (sendmsgv_basic _ _ _ _ _ _ E) as (Hs & _ & _). apply sys_bquiet in Hs.
+  destruct (0 <? n).
+  - destruct (skipn (Z.to_nat n) (wq s)) eqn:Ew.
+    + repeat split; auto.
+    + specialize (IH (complete (Z.to_nat n) (set_os o' s))).
+      destruct (sendmsg_loop fx f (complete (Z.to_nat n) (set_os o' s))) as [s3 ev'].
+      apply (keeps_bind s (complete (Z.to_nat n) (set_os o' s)) ev s3 ev'); auto. repeat split; auto.
+  - destruct (n =? 0).
+    + specialize (IH (set_os o' s)). destruct (sendmsg_loop fx f (set_os o' s)) as [s3 ev'].
+      apply (keeps_bind s (set_os o' s) ev s3 ev'); auto. repeat split; auto.
+    + destruct (n =? UV_EAGAIN); [repeat split; auto|].
+      unfold fail_head. simpl. destruct (wq s); repeat split; auto.
+Qed.
+
+Lemma udp_sendmsg_keeps fx s : keeps s (udp_sendmsg fx s).
+Proof. unfold udp_sendmsg. destruct (wq s); [repeat split|apply sendmsg_loop_keeps]. Qed.
+
+Lemma udp_send_keeps fx s len addr : keeps s (udp_send fx s len addr).
+Proof.
+  unfold udp_send. destruct (check_before_send s addr <? 0); [repeat split|].
+  match goal with |- keeps s (if ?c then _ else _) => destruct c end; [|repeat split].
+  match goal with |- context [udp_sendmsg fx ?S1] => pose proof (udp_sendmsg_keeps fx S1) as K;
+    destruct (udp_sendmsg fx S1) as [s2 ev] end.
+  destruct K as (K1 & K2 & K3). simpl in *.
+  destruct (wq s2); repeat split; simpl; auto.
+Qed.
+
+Lemma udp_try_send_keeps s len addr : keeps s (udp_try_send s len addr).
+Proof.
+  unfold udp_try_send. destruct (check_before_send s addr <? 0); [repeat split|].
+  destruct (negb _); [repeat split|].
+  destruct (sendmsg1 _ _) as [[r ev] o'] eqn:E.
+  destruct (sendmsg1_spec _ _ _ _ _ E) as (Hs & _). apply sys_bquiet in Hs.
+  repeat split; simpl; auto. now rewrite forallb_app, Hs.
+Qed.
+
+Lemma udp_try_send2_keeps fx s lens flags : keeps s (udp_try_send2 fx s lens flags).
+Proof.
+  unfold udp_try_send2. destruct (_ <? 1)%nat; [repeat split|].
+  destruct (negb _); [repeat split|]. destruct (0 <? _); [repeat split|].
+  destruct (sendmsgv _ _ _) as [[r ev] o'] eqn:E.
+  destruct (sendmsgv_basic _ _ _ _ _ _ E) as (Hs & _). apply sys_bquiet in Hs.
+  repeat split; simpl; auto. now rewrite forallb_app, Hs.
+Qed.
+
+(* any API call *)
+Lemma api_soft fx s o :
+  forallb bsoft (snd (api fx s o)) = true /\ next_buf (fst (api fx s o)) = next_buf s.
+Proof.
+  assert (K : forall r, keeps s r -> forallb bsoft (snd r) = true /\ next_buf (fst r) = next_buf s).
+  { intros r (K1 & _ & K3). split; auto. now apply bquiet_soft. }
+  destruct o; simpl; auto; destruct (closing s); simpl; auto.
+  - apply K, udp_send_keeps.
+  - apply K, udp_try_send_keeps.
+  - apply K, udp_try_send2_keeps.
+  - unfold recv_start. destruct (pin s); simpl; auto.
+Qed.
+
+Lemma api_nostop fx s o :
+  o <> ORecvStop ->
+  forallb bquiet (snd (api fx s o)) = true /\
+  (recving s = true -> recving (fst (api fx s o)) = true) /\
+  next_buf (fst (api fx s o)) = next_buf s.
+Proof.
+  intros Hne.
+  assert (K : forall r, keeps s r -> forallb bquiet (snd r) = true /\
+               (recving s = true -> recving (fst r) = true) /\ next_buf (fst r) = next_buf s).
+  { intros r (K1 & K2 & K3). repeat split; auto. congruence. }
+  destruct o; simpl; auto; try congruence; destruct (closing s); simpl; auto.
+  - apply K, udp_send_keeps.
+  - apply K, udp_try_send_keeps.
+  - apply K, udp_try_send2_keeps.
+  - unfold recv_start. destruct (pin s); simpl; auto.
+Qed.
+
+Lemma apis_soft fx : forall l s,
+  forallb bsoft (snd (apis fx s l)) = true /\ next_buf (fst (apis fx s l)) = next_buf s.
+Proof.
+  induction l as [|o l IH]; intros s; simpl; auto.
+  pose proof (api_soft fx s o) as (A1 & A2). destruct (api fx s o) as [s1 e1].
+  pose proof (IH s1) as (B1 & B2). destruct (apis fx s1 l) as [s2 e2]. simpl in *.
+  split; [now rewrite forallb_app, A1, B1|congruence].
+Qed.
+
+Lemma apis_nostop fx : forall l s,
+  ~ In ORecvStop l ->
+  forallb bquiet (snd (apis fx s l)) = true /\
+  (recving s = true -> recving (fst (apis fx s l)) = true) /\
+  next_buf (fst (apis fx s l)) = next_buf s.
+Proof.
+  induction l as [|o l IH]; intros s Hn; simpl; auto.
+  assert (Ho : o <> ORecvStop) by (intros E; apply Hn; now left).
+  assert (Hl : ~ In ORecvStop l) by (intros E; apply Hn; now right).
+  pose proof (api_nostop fx s o Ho) as (A1 & A2 & A3). destruct (api fx s o) as [s1 e1].
+  pose proof (IH s1 Hl) as (B1 & B2 & B3). destruct (apis fx s1 l) as [s2 e2]. simpl in *.
+  repeat split; [now rewrite forallb_app, A1, B1|auto|congruence].
+Qed.
